@@ -815,6 +815,35 @@ func (r *Run) guardedBy(g guardSpec) {
 						}
 						return []pathsim.State{s}
 					}
+					if ev.Kind == pathsim.EvCall && ev.Call != nil && !ev.Go && !ev.Deferred {
+						// a method / function value handed to a synchronous library callback
+						// (slices.ContainsFunc(xs, st.isKnown)) runs at the caller's lock level
+						if cf, ok := ev.Callee.(*types.Func); ok && syncCallbackHost(cf) {
+							for _, a := range ev.Call.Args {
+								var id *ast.Ident
+								switch x := ast.Unparen(a).(type) {
+								case *ast.Ident:
+									id = x
+								case *ast.SelectorExpr:
+									id = x.Sel
+								}
+								if id == nil {
+									continue
+								}
+								if fn, ok := c.Info.Uses[id].(*types.Func); ok {
+									if fi := r.P.FuncInfoOf(fn); fi != nil && unitsByNode[fi.Decl] != nil {
+										if n, ok := callLevel[fn]; !ok || s.A < n {
+											callLevel[fn] = s.A
+										}
+										if callSeen[fn] == nil {
+											callSeen[fn] = map[token.Pos]bool{}
+										}
+										callSeen[fn][ev.Pos] = true
+									}
+								}
+							}
+						}
+					}
 					if ev.Kind == pathsim.EvCall {
 						if fn, ok := ev.Callee.(*types.Func); ok {
 							if fi := r.P.FuncInfoOf(fn); fi != nil {
@@ -892,13 +921,10 @@ func (r *Run) guardedBy(g guardSpec) {
 			if len(sites) == 0 {
 				continue
 			}
-			ok := true
-			for _, cs := range sites {
-				if cs.Call == nil {
-					ok = false
-				}
-			}
-			if !ok || len(callSeen[fn]) < len(sites) {
+			// every use was observed at a lock level: a static call, or the function value handed to a
+			// synchronous library callback (recorded above); a value use that was not observed (stored,
+			// passed elsewhere) leaves fewer observations than sites
+			if len(callSeen[fn]) < len(sites) {
 				continue
 			}
 			if lv := callLevel[fn]; lv > entry[fn] {
@@ -974,4 +1000,19 @@ func (r *Run) reachingWriters(f *types.Var, pkgPath string) map[*types.Func]bool
 		}
 	}
 	return out
+}
+
+// syncCallbackHost: a library function that calls its function arguments synchronously, on the
+// calling goroutine, before it returns.
+func syncCallbackHost(fn *types.Func) bool {
+	if fn == nil || fn.Pkg() == nil {
+		return false
+	}
+	switch fn.Pkg().Path() {
+	case "slices", "sort", "maps", "strings", "bytes":
+		return true
+	case prog.Module + "/util/sliceu", prog.Module + "/util/iteru":
+		return true
+	}
+	return false
 }
